@@ -6,7 +6,7 @@ statement grammar Spec/RefStmt.v (`mstmt`), with the parenthesisation choices ac
 """
 import c03gen as G
 
-CL = dict(items=0, on=1, where=2, group=3, having=4, order=5, values=6, set=7, returning=8, don=9)
+CL = dict(items=0, on=1, where=2, group=3, having=4, order=5, values=6, set=7, returning=8, don=9, cset=10, cwhere=11)
 
 
 class CoreStmtGen(G.StmtGen):
@@ -30,7 +30,9 @@ class CoreStmtGen(G.StmtGen):
 
     def insert(self):
         s = super().insert()
-        s["conflict"] = None
+        c = s["conflict"]
+        if c:
+            if c["nothing"]: c["updates"], c["where"] = [], None
         return s
 
     def statement(self):
@@ -159,7 +161,6 @@ class Conv:
         if k in ("select", "setop"):
             body = "(BQuery %s)" % self.query(s2, base)[0]
         elif k == "insert":
-            need(s["conflict"] is None)
             cols = "[%s]" % "; ".join(G.coq_str(c) for c in s["cols"])
             if s["rows"] is not None:
                 rows, i = [], 0
@@ -172,8 +173,22 @@ class Conv:
             else:
                 qt, n = self.query(s["query"], base)
                 src = "(inr %s)" % qt
+            c = s["conflict"]
+            if c:
+                need(not c["constraint"] or not c["target"])
+                tg = "(CtCols [%s])" % "; ".join(G.coq_str(x) for x in c["target"]) if c["target"] else ("(CtConstraint %s)" % G.coq_str(c["constraint"]) if c["constraint"] else "CtNone")
+                if c["nothing"]:
+                    act = "CaNothing"
+                else:
+                    need(c["updates"])
+                    sets = ["(%s, %s)" % (G.coq_str(nm), self.E(e, CL["cset"] + 16 * (base + n), i)) for i, (nm, e) in enumerate(c["updates"])]
+                    wh = "None" if c["where"] is None else "(Some %s)" % self.E(c["where"], CL["cwhere"] + 16 * (base + n), 0)
+                    act = "(CaUpdate [%s] %s)" % ("; ".join(sets), wh)
+                cf = "(Some (MkConflict %s %s))" % (tg, act)
+            else:
+                cf = "None"
             ret = [self.E(e, CL["returning"] + 16 * (base + n), i) for i, e in enumerate(s["returning"])]
-            body = "(BInsert %s %s %s [%s])" % (self.path(s["table"]), cols, src, "; ".join(ret))
+            body = "(BInsert %s %s %s %s [%s])" % (self.path(s["table"]), cols, src, cf, "; ".join(ret))
         elif k == "update":
             sets = ["(%s, %s)" % (G.coq_str(c), self.E(e, CL["set"] + sh, i)) for i, (c, e) in enumerate(s["sets"])]
             wh = "None" if s["where"] is None else "(Some %s)" % self.E(s["where"], CL["where"] + sh, 0)
@@ -253,7 +268,11 @@ FIXED_TEXTS = [
     "CREATE TABLE t ( a INT )", "DROP TABLE t", "MERGE INTO t USING u ON a WHEN MATCHED THEN DELETE", "a", "RETURNING a", "REPLACE INTO t VALUES ( 1 )", "TRUNCATE t", ";",
     "SELECT name FROM target", "SELECT a FROM source s JOIN matched m ON TRUE", "SELECT a value FROM t", "SELECT f ( a ) status FROM t",
     "SELECT 1 WHERE a = 1", "SELECT 1 ORDER BY 1 LIMIT 1 OFFSET 2", "SELECT COUNT ( x ) n HAVING COUNT ( x ) > 1", "SELECT 1 GROUP BY a", "SELECT 1 ON a",
-    "INSERT INTO t SELECT 1 RETURNING a", "INSERT INTO t SELECT 1 ON CONFLICT DO NOTHING", "SELECT 1 x y", "SELECT 1 FETCH FIRST 1 ROWS ONLY",
+    "INSERT INTO t SELECT 1 RETURNING a", "INSERT INTO t SELECT 1 ON CONFLICT DO NOTHING", "INSERT INTO t VALUES ( 1 ) on conflict do nothing",
+    "INSERT INTO t VALUES ( 1 ) ON CONFLICT ( a , b ) DO UPDATE SET a = 1 , b = excluded . b + 1 WHERE t . a > 0 RETURNING a",
+    "INSERT INTO t VALUES ( 1 ) ON CONFLICT ON CONSTRAINT c1 DO NOTHING", "INSERT INTO t SELECT a FROM u ON CONFLICT ( a ) DO UPDATE SET a = 2",
+    "INSERT INTO t VALUES ( 1 ) ON CONFLICT DO", "INSERT INTO t VALUES ( 1 ) ON CONFLICT ( ) DO NOTHING", "INSERT INTO t VALUES ( 1 ) ON CONFLICT DO UPDATE a = 1",
+    "INSERT INTO t VALUES ( 1 ) ON CONFLICT ON CONSTRAINT DO NOTHING", "INSERT INTO t VALUES ( 1 ) ON DUPLICATE KEY UPDATE a = 1", "INSERT INTO t VALUES ( 1 ) ON CONFLICT DO NOTHING WHERE a", "SELECT 1 x y", "SELECT 1 FETCH FIRST 1 ROWS ONLY",
     "SELECT DISTINCT ON ( a + 1 , ( b ) ) c , d FROM t", "SELECT a FROM t GROUP BY ROLLUP ( a , b + 1 ) , c , CUBE ( ( d ) )", "SELECT a FROM t GROUP BY ROLLUP ( )",
     "SELECT a FROM t GROUP BY ROLLUP a", "SELECT a FROM t GROUP BY CUBE ( a b )", "SELECT a FROM t GROUP BY ROLLUP ( a ) HAVING b ORDER BY c",
     "SELECT a FROM t GROUP BY 'GROUPING SETS' , b", 'SELECT a FROM t GROUP BY "GROUPING SETS"', "SELECT a FROM t GROUP BY GROUPING SETS ( ( a ) )",
